@@ -93,6 +93,15 @@ func (*intScalar) CoerceIn(v interface{}) (interface{}, error) {
 	return v, err
 }
 
+// intFromFloat64 converts to the 32 bit GraphQL Int, dropping the fraction, or
+// fails if out of range or not a number.
+func intFromFloat64(f float64) (interface{}, error) {
+	if math.MinInt32 <= f && f <= math.MaxInt32 {
+		return int32(f), nil
+	}
+	return nil, fmt.Errorf("%w %g into a Int, out of range", ErrCoerce, f)
+}
+
 // CoerceOut coerces a result value into a type for the scalar.
 func (t *intScalar) CoerceOut(v interface{}) (interface{}, error) {
 	var err error
@@ -100,11 +109,11 @@ func (t *intScalar) CoerceOut(v interface{}) (interface{}, error) {
 	case nil:
 		// remains nil
 	case float32:
-		v = int32(tv)
+		v, err = intFromFloat64(float64(tv))
 	case float64:
-		v = int32(tv)
+		v, err = intFromFloat64(tv)
 	case int:
-		v = int32(tv)
+		v, err = intFromInt64(int64(tv))
 	case int8:
 		v = int32(tv)
 	case int16:
@@ -112,21 +121,23 @@ func (t *intScalar) CoerceOut(v interface{}) (interface{}, error) {
 	case int32:
 		// ok as is
 	case int64:
-		v = int32(tv)
+		v, err = intFromInt64(tv)
 	case uint:
-		v = int32(tv)
+		v, err = intFromUint64(uint64(tv))
 	case uint8:
 		v = int32(tv)
 	case uint16:
 		v = int32(tv)
 	case uint32:
-		v = int32(tv)
+		v, err = intFromUint64(uint64(tv))
 	case uint64:
-		v = int32(tv)
+		v, err = intFromUint64(tv)
 	case string:
 		var i int64
 		if i, err = strconv.ParseInt(tv, 10, 64); err == nil {
-			v = int32(i)
+			v, err = intFromInt64(i)
+		} else {
+			v = nil
 		}
 	default:
 		err = newCoerceErr(tv, "Int")
